@@ -13,10 +13,15 @@ Definition sACS := S_ACS.  Definition sSLO := S_SLO.  Definition sMNI := S_MNI. 
 Definition rSP := R_SP.    Definition rIDP := R_IDP.
 Definition ep := EPt.
 
-(* loaded metadata, operation, observed outcome, and whether the prepared HTTP message (url /
-   Location header / form action / SOAP post) really goes to the selected destination *)
-Definition case := (md * op * outcome * bool)%type.
-Definition mk (m : md) (o : op) (obs : outcome) (wire : bool) : case := (m, o, obs, wire).
+(* A case is a SEQUENCE on long-lived entities (round 3): the metadata each entity of the case was created
+   with, and the steps in the order they were carried out, each with what was seen on the real code: for an
+   operation the outcome and whether the prepared HTTP message (url / Location header / form action / SOAP
+   post) really goes to the selected destination, for a refresh what reload_metadata returned.  The cases of
+   the earlier rounds are the one-step sequences (mk). *)
+Inductive seen := SawOut (out : outcome) (wire : bool) | SawReload (ok : bool).
+Definition case := (list md * list (sstep * seen))%type.
+Definition mkseq (ms : list md) (l : list (sstep * seen)) : case := (ms, l).
+Definition mk (m : md) (o : op) (obs : outcome) (wire : bool) : case := ([m], [(SOp 0 o, SawOut obs wire)]).
 
 Definition ostr_eqb := opt_eqb String.eqb.
 
@@ -35,20 +40,51 @@ Definition outcome_eqb (a b : outcome) : bool :=
   | _, _ => false
   end.
 
-Definition agrees (c : case) : bool :=
-  let '(m, o, obs, _) := c in outcome_eqb (run_op m o) obs.
-Definition holds (c : case) : bool :=
-  let '(m, o, obs, wire) := c in spec_b m o obs && wire.
-(* finding class 1 (fixed by 796203d6; a violation again if it comes back): the observed answer of
-   the discovery service is the one of the inverted verify_return and not the one of the fixed code *)
-Definition cls (c : case) : nat :=
-  let '(m, o, obs, _) := c in
-  match o with
-  | OpDisco eid url =>
-      if outcome_eqb (verify_return_v0 m eid url) obs && negb (outcome_eqb (verify_return m eid url) obs) then 1 else 0
-  | _ => 0
+Definition sobs_of (s : seen) : sobs :=
+  match s with SawOut out _ => OOut out | SawReload ok => OReloaded ok end.
+Definition wire_of (s : seen) : bool := match s with SawOut _ w => w | SawReload _ => true end.
+Definition sobs_eqb (a b : sobs) : bool :=
+  match a, b with
+  | OOut x, OOut y => outcome_eqb x y
+  | OReloaded x, OReloaded y => Bool.eqb x y
+  | _, _ => false
   end.
 
+Definition agrees (c : case) : bool :=
+  let '(ms, l) := c in list_eqb sobs_eqb (run_seq (init_stores ms) (map fst l)) (map sobs_of (map snd l)).
+Definition holds (c : case) : bool :=
+  let '(ms, l) := c in
+  spec_seq_b (init_stores ms) (map fst l) (map sobs_of (map snd l)) && forallb wire_of (map snd l).
+(* finding class 1 (fixed by 796203d6; a violation again if it comes back): an observed answer of
+   the discovery service is the one of the inverted verify_return and not the one of the fixed code *)
+Fixpoint cls_from (st : stores) (l : list (sstep * seen)) : nat :=
+  match l with
+  | [] => 0
+  | (SOp k (OpDisco eid url), SawOut obs _) :: r =>
+      if outcome_eqb (verify_return_v0 (st k) eid url) obs && negb (outcome_eqb (verify_return (st k) eid url) obs)
+      then 1 else cls_from st r
+  | (SReload k m, SawReload true) :: r => cls_from (upd k m st) r
+  | _ :: r => cls_from st r
+  end.
+Definition cls (c : case) : nat := let '(ms, l) := c in cls_from (init_stores ms) l.
+
 Definition run := run_cases agrees holds cls.
+(* per step: number, model, seen, spec on the seen outcome against the metadata in force, wire *)
+Fixpoint explain_from (i : nat) (st : stores) (l : list (sstep * seen)) : list (nat * sobs * seen * bool) :=
+  match l with
+  | [] => []
+  | (SOp k o, s) :: r =>
+      (i, OOut (run_op (st k) o), s, match s with SawOut out w => spec_b (st k) o out && w | _ => false end)
+      :: explain_from (S i) st r
+  | (SReload k m, s) :: r =>
+      (i, OReloaded true, s, true) :: explain_from (S i) (match s with SawReload true => upd k m st | _ => st end) r
+  | (SReloadFail k, s) :: r => (i, OReloaded false, s, true) :: explain_from (S i) st r
+  end.
+(* only the steps that disagree or fail (all steps of a one-step case) *)
 Definition explain (c : case) :=
-  let '(m, o, obs, wire) := c in (run_op m o, obs, spec_b m o obs, wire).
+  let '(ms, l) := c in
+  let all := explain_from 0 (init_stores ms) l in
+  match l with
+  | [_] => all
+  | _ => filter (fun x => let '(_, mo, s, ok) := x in negb (sobs_eqb mo (sobs_of s) && ok)) all
+  end.
